@@ -126,7 +126,14 @@ def run_check(prop, tier, seed):
             if rc1 == 0 and a1.strip() != a2.strip():
                 violations.append({'kind': 'alphabet', 'detail': {'impl': a1[:400], 'model': a2[:400]},
                                    'case': '(alphabet)'})
-        cases = prop.corpus() + prop.cases(tier, rng)
+        gen = prop.cases(tier, rng)
+        # builder order: every ninth pair of generated grammar cases builds its lexer filter-first, then metrics
+        # (`(order fm)`); the final configuration - all the oracles look at - is the same
+        if getattr(prop, 'vary_order', True):
+            gen = [(c.replace(' (text', ' (order fm) (text', 1)
+                    if c.startswith('(parse-case') and ' (order ' not in c and (i // 2) % 9 == 4 else c)
+                   for i, c in enumerate(gen)]
+        cases = prop.corpus() + gen
         impl, model, info = core.run_both(prop.id, cases, prop.impl_argv, prop.model_argv,
                                           timeout=getattr(prop, 'run_timeout', {}).get(tier, 600),
                                           supervise=getattr(prop, 'supervise', None))
